@@ -827,6 +827,15 @@ class CSSStyleSheet(cssutils.stylesheets.StyleSheet):
                         ):
                             index = i  # before these
                             break
+                    # but never before an @charset, @import or @namespace,
+                    # e.g. if a comment precedes these
+                    for i, r in enumerate(self._cssRules):
+                        if r.type in (
+                            r.CHARSET_RULE,
+                            r.IMPORT_RULE,
+                            r.NAMESPACE_RULE,
+                        ) and (index is None or i >= index):
+                            index = i + 1
             else:
                 # after @charset @import @namespace
                 for r in self._cssRules[index:]:
